@@ -14,7 +14,7 @@ RULE = ('three kinds of cases. rev: lists of DNA strings (all strings up to a le
         'twice (with an untouched and with a materialised intermediate), also on inputs that are not yet materialised views built by prior indexing (row slice, step, mask, fancy index, column slices, reversed columns); str: a reference string and a set of stranded intervals (every [a,b) of short references, random '
         'sets on longer ones, empty intervals included) through get_strand_specific_sequences (3 encodings), '
         'GenomicSequence.from_dict and Genome.from_file(...).read_sequence(); tr: all 64 codons, all pairs of '
-        'codons, random concatenations in mixed case, empty rows, plus rows with N/n or a length that is not a multiple of three (must raise); gen: genes.get_transcript_sequences on single- and multi-exon transcripts. Every expected value is computed inside Coq from '
+        'codons, random concatenations in mixed case, empty rows, plus rows with N/n or a length that is not a multiple of three (must raise); gen: genes.get_transcript_sequences on single- and multi-exon transcripts; seq: programs of several calls (translate, reverse complement, re-read) on the SAME ragged array / SequenceEntry and on a kept reverse complement, operands must stay unchanged. Every expected value is computed inside Coq from '
         'the Spec tables and also compared with Biopython. non-trivial = some row is not its own reverse '
         'complement / some minus-strand interval of length >= 2 / at least one codon')
 EXHAUSTIVE = {'quick': False, 'thorough': False}
@@ -211,6 +211,27 @@ def generate(tier, seed):
                 [[[[1, 3]], '-'], [[[3, 3]], '+']], [[[[0, 3], [3, 6]], '-'], [[[6, 7]], '+']]):
         cases.append(dict(op='gen', ref='ACGTNAc', txs=txs))
 
+    # ---- seq: several calls on the SAME objects (x built once, r = a kept reverse complement of x): operands must stay
+    #      unchanged and every later result must equal the result on a fresh copy
+    PROGRAMS = [['tr:x', 'tr:x'], ['tr:x', 'rc:x'], ['tr:x', 'read:x'], ['tr:x', 'keep_rc', 'tr:r'],
+                ['keep_rc', 'tr:r', 'tr:r', 'read:r'], ['keep_rc', 'tr:r', 'rc:r'], ['rc:x', 'tr:x', 'rc:x', 'tr:x'],
+                ['tr:x', 'read:x', 'tr:x', 'rc:x', 'read:x', 'keep_rc', 'tr:r', 'rc:r', 'read:r', 'tr:x'],
+                ['keep_rc', 'tr:x', 'tr:r', 'read:x', 'read:r'], ['read:x', 'tr:x', 'keep_rc', 'rc:r', 'tr:x']]
+    bases = [CODONS[:16], ['ATGGCCTTTAAATAGTTT', '', 'acgGGGtga', 'ATG'], [''.join(CODONS), ''.join(reversed(CODONS))], ['ACGTTT']]
+    for i in range(8 if quick else 60):
+        bases.append([''.join(ch.lower() if (i % 2 and rng.random() < 0.4) else ch
+                              for ch in ''.join(rng.choice(CODONS) for _ in range(rng.choice([0, 1, 2, 3, 5, 11]))))
+                      for _ in range(rng.randint(1, 7))])
+    for bi, base in enumerate(bases):
+        for pi, prog in enumerate(PROGRAMS):
+            for container in ('era', 'se'):
+                if container == 'se' and not base:
+                    continue
+                c = dict(op='seq', rows=base, container=container, program=prog)
+                if container == 'era' and len(base) >= 3 and (bi + pi) % 4 == 3:
+                    c['view'] = _views(rng, len(base), col=3)[(bi + pi) % 11]
+                cases.append(c)
+
     # ---- str: reference + stranded intervals, five routes
     routes = [(0, 0), (0, 1), (0, 2), (1, 2), (2, 2)]
     for route, enc in routes:
@@ -239,6 +260,10 @@ def generate(tier, seed):
             if i % 10 == 9:
                 ivs[0][2] = '.'        # not quantified by the property: only model_ok looks at this row
             c = dict(op='str', route=route, enc=enc, ref=ref, ivs=ivs)
+            if i % 6 == 5:      # many intervals (17 and more): row order after any internal regrouping / sorting of the rows
+                L = len(ref)
+                c['ivs'] = [[a, min(L, a + rng.randint(0, 4)), '-' if rng.random() < 0.5 else '+']
+                            for a in (rng.randint(0, L) for _ in range(rng.choice([17, 18, 24, 33, 64])))]
             if route == 0 and i % 3 == 0:
                 c['refview'] = ['offset', 'rev', 'step'][(i // 3) % 3]   # the reference itself is a view of a longer / reversed / interleaved array
             cases.append(c)
@@ -366,6 +391,52 @@ def observe(case):
         except Exception as e:
             out['outs'].append(_err(e))
         return out
+    if op == 'seq':
+        base, view = case['rows'], case.get('view')
+        steps = []
+        if case['container'] == 'se':
+            holder = SequenceEntry.from_entry_tuples([('s%d' % i, s) for i, s in enumerate(base)])
+            X = lambda: holder                       # the dataclass is handed to the library; .sequence is read for observation
+            seq_of = lambda v: v.sequence
+        else:
+            arr = as_encoded_array(base)
+            if view:
+                arr = _index_view(arr, view)         # stays an unmaterialised view until a step looks at it
+            X = lambda: arr
+            seq_of = lambda v: v
+        R = {}
+
+        def ob(f):
+            try:
+                v = f()
+                return [0, _rows(v)]
+            except Exception as e:
+                return _err(e)
+        for st in case['program']:
+            if st == 'keep_rc':
+                try:
+                    R['r'] = get_reverse_complement(X())
+                except Exception as e:
+                    R['r'] = None
+                continue
+            what, obj = st.split(':')
+            if obj == 'r' and R.get('r') is None:
+                steps.append([{'tr': 3, 'read': 2, 'rc': 4}[what], [9, []]])
+                continue
+            target = X() if obj == 'x' else R['r']
+            if what == 'read':
+                def rd(t=target):
+                    s = seq_of(t)
+                    rows = _rows(s)
+                    if s.lengths.tolist() != [len(bytes.fromhex(h)) for h in rows]:
+                        raise RuntimeError('lengths attribute disagrees with the rows')
+                    return s
+                steps.append([0 if obj == 'x' else 2, ob(rd)])
+            elif what == 'tr':
+                steps.append([1 if obj == 'x' else 3, ob(lambda t=target: seq_of(translate_dna_to_protein(t)))])
+            else:
+                steps.append([2 if obj == 'x' else 4, ob(lambda t=target: seq_of(get_reverse_complement(t)))])
+        return dict(steps=steps)
     if op == 'gen':
         from bionumpy.datatypes.gtf import GFFExonEntry
         from bionumpy.sequence.genes import get_transcript_sequences
@@ -454,6 +525,8 @@ def to_coq(case, o):
                                         clist([_obs(x) for x in o['twice']], 'obs'), _hrows(o['bio']))
     if op == 'tr':
         return 'CTr %s %s %s' % (_srows(_eff(case)), clist([_obs(x) for x in o['outs']], 'obs'), _hrows(o['bio']))
+    if op == 'seq':
+        return 'CSeq %s %s' % (_srows(_eff(case)), clist(['(%s, %s)' % (cz(k), _obs(x)) for k, x in o['steps']], '(Z * obs)'))
     if op == 'gen':
         txs = clist(['(%s, %s)' % (clist(['(%s, %s)' % (cz(a), cz(b)) for a, b in ex], '(Z*Z)'), cz(ord(st))) for ex, st in case['txs']],
                     'transcript')
@@ -473,6 +546,8 @@ def nontrivial(case, o):
         return any(len(s) >= 2 and _rc(s) != s and s[::-1] != s for s in _eff(case))
     if op == 'tr':
         return any(len(s) >= 3 for s in _eff(case))
+    if op == 'seq':
+        return any(len(s) >= 3 for s in _eff(case)) and len(case['program']) >= 2
     if op == 'gen':
         return any(st == '-' and sum(b - a for a, b in ex) >= 2 for ex, st in case['txs'])
     return any(st == '-' and b - a >= 2 for a, b, st in case['ivs'])
@@ -483,6 +558,9 @@ def describe(case, o):
     if case['op'] == 'rev':
         d['rows'] = case['rows'][:6]
         d['observed'] = [o['once'][0][0], [bytes.fromhex(h).decode('latin1') for h in o['once'][0][1][:6]]]
+    elif case['op'] == 'seq':
+        d['rows'] = case['rows'][:6]
+        d['observed'] = [[k, x[0], [bytes.fromhex(h).decode('latin1') for h in x[1][:4]]] for k, x in o['steps']]
     elif case['op'] == 'tr':
         d['rows'] = case['rows'][:6]
         d['observed'] = [o['outs'][0][0], [bytes.fromhex(h).decode('latin1') for h in o['outs'][0][1][:6]]]
@@ -511,6 +589,10 @@ def distribution(cases, obs):
             code = o['outs'][0][0] if isinstance(o, dict) and o.get('outs') else -1
             if not all(len(s) % 3 == 0 and set(s) <= set('ACGTacgt') for s in c['rows']):
                 d['tr_must_raise'] = d.get('tr_must_raise', 0) + 1
+        elif c['op'] == 'seq':
+            d['seq_programs'] = d.get('seq_programs', 0) + 1
+            d['seq_steps'] = d.get('seq_steps', 0) + len(c['program'])
+            code = max([x[0] for k, x in o['steps']] or [0]) if isinstance(o, dict) and 'steps' in o else -1
         elif c['op'] == 'gen':
             d['gen_transcripts'] = d.get('gen_transcripts', 0) + len(c['txs'])
             d['gen_multi_exon'] = d.get('gen_multi_exon', 0) + sum(1 for ex, st in c['txs'] if len(ex) > 1)
@@ -549,6 +631,9 @@ def signature(case, o):
         return 'rev enc%d code%s' % (case['enc'], o['once'][0][0] if o.get('once') else '?')
     if op == 'tr':
         return 'tr code%s' % (o['outs'][0][0] if o.get('outs') else '?')
+    if op == 'seq':
+        bad = [k for k, x in o['steps'] if x[0]]
+        return 'seq %s codes%s' % (case['container'], bad[:1])
     if op == 'gen':
         return 'gen code%s' % o['o'][0]
     return 'str route%d enc%d code%s' % (case['route'], case['enc'], o['o'][0])
